@@ -79,14 +79,16 @@ claim('C08', 'proof',
       'trusted: npvc encoder; z3; equality is identity of the symbolic values in the call log (same array object / same term); the base _fit contracts are verified separately (C03)',
       'ghost call log + provenance tags on the real supervised fits; ' + BOUNDED, [])
 claim('C09', 'other',
-      'deductive: Covariance / RCA / LFDA fit bodies at the shape, dtype, exception and seeding level; LFDA loop write-set clause (the local-scale index is not carried across classes, F13) and value invariant k >= 0. '
-      'The documented formulas themselves (pinv of the covariance, whitening of the within-chunk covariance, Sugiyama\'s pairwise scatter matrices, eigen-ordering and embedding scaling) are decided by the bounded stand-in '
+      'deductive: Covariance hands components_from_metric exactly pinv(Cov(X\')) of the prepared points (1/Cov for one feature) and stores its result (with the C20 contract: L^T L = M); '
+      'RCA: components_ is the symmetric inverse square root V diag(1/sqrt(w)) V^T of the bias-1 covariance of the chunk-centred data -- (A^T W A)^(-1/2) A^T after reduction -- which whitens W by Lean inv_sqrtm_whitens, '
+      'and the centring loop visits every chunk id 0..max(chunks); LFDA: the local-scale index is not carried across classes (F13), k >= 0; all three fits at the shape, dtype, exception and seeding level. '
+      'The values of the chunk centring, the retained RCA directions and every LFDA formula (Sugiyama\'s pairwise scatter matrices, local scaling, eigen-ordering, embedding scaling) are decided by the bounded stand-in '
       'against an independent O(n^2) evaluation (this is where F6, F8, F13 and the sign error F16 were found). The scatter algebra planned in DESIGN.md 3/C09 is NOT proved: the design-time reading of lfda.py:136 was wrong.',
-      'trusted: as C03; np.cov / pinvh / eigh / eigsh are numpy/scipy; known finding F8 (LFDA local scale axis) is not repaired',
-      'shape-level symbolic execution + loop write-set clause; ' + BOUNDED, ['eigen-solvers and covariance are numpy/scipy (assumed)'])
+      'trusted: as C03; np.cov / pinvh / eigh / eigsh are numpy/scipy (assumed contracts); known finding F8 (LFDA local scale axis) is not repaired',
+      'term-level formula clauses over the symbolic execution + loop clauses; ' + BOUNDED, ['eigen-solvers and covariance are numpy/scipy (assumed)', 'LFDA formulas are bounded only'])
 claim('C12', 'other',
       'deductive: LSML _fit at the shape/ownership level (loops with inferred invariants, numeric widening, Optional M_best), weights copied before normalisation (F4b), and the dataflow clauses "constraint weights reach the objective" / '
-      '"reach the search direction" on _comparison_loss / _gradient (F9). Objective value, descent, SPD, prior fixpoint and stationarity at early stop are decided by the bounded stand-in with an independent objective/gradient.',
+      '"reach the search direction" on _comparison_loss / _gradient (F9), and the control structure behind "an early stop is stationary": the step-size scan tries every step size and the solver loop is left only through its two exit tests. Objective value, descent, SPD, prior fixpoint and stationarity at early stop are decided by the bounded stand-in with an independent objective/gradient.',
       'trusted: as C03; known finding F21 (quadruplet with a collapsed second pair -> NaN gradient)', 'shape-level symbolic execution + dataflow clauses; ' + BOUNDED,
       ['loss / gradient formulas are checked at run time only (bounded)'])
 claim('C16', 'other',
